@@ -469,8 +469,11 @@ def oracle(ctx, case, world, q, impl, known_tags):
             ctx.fail("toplevel-version", case, expected=named, observed=B.triple(r["found"]),
                      what="a top-level request for an explicit version set up another version")
         vl = [k for k, x in enumerate(vro) if x in ("version", "version!", "versionExpr")]
+        # the clause is about the VROs the configuration produces (the property's quantifier); with an explicit
+        # --vro the user decides which entries exist (a VRO without a version entry cannot honour a named version),
+        # and the designation rule above already judges the answer entry by entry
         if q["version"] and r["reason"] and vl and r["reason"][0] in vro and vro.index(r["reason"][0]) > max(vl) and \
-                r["reason"][0] not in ("commandLine", "keep"):
+                r["reason"][0] not in ("commandLine", "keep") and not q["opts"].get("uservro"):
             ctx.fail("falls-through", case, expected=None, observed=[B.triple(r["found"]), r["reason"]],
                      what="a request naming a version or expression fell through to the later entry %s" % r["reason"][0])
 
